@@ -37,7 +37,15 @@ type Span struct {
 	Name  string `json:"name"`
 	Start uint64 `json:"st"` // ns
 	End   uint64 `json:"en"` // ns
-	St    int    `json:"code"` // 0 unset 1 ok 2 error; -1 = no status message
+	St    int    `json:"code"` // 0 unset 1 ok 2 error; 3 = no status message
+	// the ResourceSpans entry the span is sent in: consecutive spans of a request with equal R form one
+	// entry of kind RK (0 service.name only, 1 nil Resource, 2 attributes without service.name,
+	// 3 service.name with an integer value, 4 two service.name attributes, 5 service.name between other
+	// attributes); SvcN = the name sent (kinds 0,4,5), Svc = the service the stored event must carry
+	R    int    `json:"r"`
+	RK   int    `json:"rk"`
+	RS   bool   `json:"rs"` // one ScopeSpans per span instead of one for all
+	SvcN string `json:"svcn"`
 }
 
 type Scenario struct {
@@ -96,7 +104,14 @@ type RedObs struct {
 	P95     float64 `json:"p95"`
 	P99     float64 `json:"p99"`
 }
+type StoredObs struct {
+	T   string `json:"t"`
+	S   string `json:"s"`
+	Svc string `json:"svc"`
+}
 type WorkerObs struct {
+	Stored    []StoredObs               `json:"stored"` // every span of index traces read back with a "*" query
+	StoredErr string                    `json:"stored_err,omitempty"`
 	Ingest []int                     `json:"ingest"`
 	Search []SearchObs               `json:"search"`
 	Gantt  map[string]*GanttObs      `json:"gantt"`
@@ -154,25 +169,44 @@ func statusOf(c int) *tracepb.Status {
 	return nil
 }
 
+func strAttr(k, v string) *commonpb.KeyValue {
+	return &commonpb.KeyValue{Key: k, Value: &commonpb.AnyValue{Value: &commonpb.AnyValue_StringValue{StringValue: v}}}
+}
+
+func resourceOf(kind int, name string) *resourcepb.Resource {
+	switch kind {
+	case 1:
+		return nil
+	case 2:
+		return &resourcepb.Resource{Attributes: []*commonpb.KeyValue{strAttr("host.name", "h")}}
+	case 3:
+		return &resourcepb.Resource{Attributes: []*commonpb.KeyValue{{Key: "service.name", Value: &commonpb.AnyValue{Value: &commonpb.AnyValue_IntValue{IntValue: 7}}}}}
+	case 4:
+		return &resourcepb.Resource{Attributes: []*commonpb.KeyValue{strAttr("service.name", "zzz"), strAttr("service.name", name)}}
+	case 5:
+		return &resourcepb.Resource{Attributes: []*commonpb.KeyValue{strAttr("host.name", "h"), strAttr("service.name", name), strAttr("host.name", "i")}}
+	}
+	return &resourcepb.Resource{Attributes: []*commonpb.KeyValue{strAttr("service.name", name)}}
+}
+
 func otlpRequest(spans []Span) []byte {
-	// one ResourceSpans per run of equal service names (keeps the span order of the batch)
+	// one ResourceSpans entry per run of equal resource ordinals (keeps the span order of the batch)
 	req := &coltracepb.ExportTraceServiceRequest{}
 	var cur *tracepb.ResourceSpans
-	curSvc := ""
+	curR := 0
 	for i, s := range spans {
-		if cur == nil || s.Svc != curSvc || i == 0 {
-			cur = &tracepb.ResourceSpans{
-				Resource: &resourcepb.Resource{Attributes: []*commonpb.KeyValue{{Key: "service.name",
-					Value: &commonpb.AnyValue{Value: &commonpb.AnyValue_StringValue{StringValue: s.Svc}}}}},
-				ScopeSpans: []*tracepb.ScopeSpans{{}},
-			}
-			curSvc = s.Svc
+		if cur == nil || s.R != curR || i == 0 {
+			cur = &tracepb.ResourceSpans{Resource: resourceOf(s.RK, s.SvcN), ScopeSpans: []*tracepb.ScopeSpans{{}}}
+			curR = s.R
 			req.ResourceSpans = append(req.ResourceSpans, cur)
+		} else if s.RS {
+			cur.ScopeSpans = append(cur.ScopeSpans, &tracepb.ScopeSpans{})
 		}
 		tid, _ := hex.DecodeString(s.T)
 		sid, _ := hex.DecodeString(s.S)
 		pid, _ := hex.DecodeString(s.P)
-		cur.ScopeSpans[0].Spans = append(cur.ScopeSpans[0].Spans, &tracepb.Span{
+		sc := cur.ScopeSpans[len(cur.ScopeSpans)-1]
+		sc.Spans = append(sc.Spans, &tracepb.Span{
 			TraceId: tid, SpanId: sid, ParentSpanId: pid, Name: s.Name, Kind: tracepb.Span_SPAN_KIND_SERVER,
 			StartTimeUnixNano: s.Start, EndTimeUnixNano: s.End, Status: statusOf(s.St),
 		})
@@ -225,6 +259,36 @@ func runScenarioWorker(sc *Scenario) *WorkerObs {
 		writer.ForceRotateSegmentsForTest()
 	}
 	se, ee := fmt.Sprintf("%d", sc.StartMs), fmt.Sprintf("%d", sc.EndMs)
+
+	if len(sc.Spans) <= 9000 { // the stored events (one page holds them all)
+		body, _ := json.Marshal(map[string]interface{}{"searchText": "*", "indexName": "traces", "startEpoch": "1600000000000", "endEpoch": "4000000000000",
+			"queryLanguage": "Splunk QL", "size": 10000})
+		ctx := postCtx(body)
+		var resp struct {
+			Hits struct {
+				Records []map[string]interface{} `json:"records"`
+			} `json:"hits"`
+		}
+		o.StoredErr = guarded(opCap, func() { pipesearchProcess(ctx) })
+		if o.StoredErr == "" {
+			if err := json.Unmarshal(ctx.Response.Body(), &resp); err != nil {
+				o.StoredErr = "bad body: " + trunc(string(ctx.Response.Body()), 300)
+			}
+			for _, r := range resp.Hits.Records {
+				so := StoredObs{}
+				so.T, _ = r["trace_id"].(string)
+				so.S, _ = r["span_id"].(string)
+				if v, ok := r["service"]; ok && v != nil {
+					if sv, ok := v.(string); ok {
+						so.Svc = sv
+					} else {
+						so.Svc = fmt.Sprintf("<%v>", v)
+					}
+				}
+				o.Stored = append(o.Stored, so)
+			}
+		}
+	}
 
 	for page := 1; page <= sc.Pages; page++ {
 		body, _ := json.Marshal(map[string]interface{}{"searchText": "*", "startEpoch": se, "endEpoch": ee,
